@@ -18,7 +18,9 @@ def base_cases(thorough):
   out = []
   for gen, st in ((families.c01_cases(False), step), (families.c02_cases(False), step), (families.c04_cases(False), step * 12)):
     by = {}
-    for c in gen: by.setdefault(c.family, []).append(c)
+    for c in gen:
+      if c.family == 'RECORD-FIELD-ORDER': continue      # recorded under C01 (finding F46)
+      by.setdefault(c.family, []).append(c)
     for fam, cs in by.items():
       out += cs[::st]
       out += [c for k, c in enumerate(cs) if k % st and 'K(a, ' in c.text()]     # every K-best aggregate program (row-arrival order matters most there)
